@@ -417,6 +417,56 @@ def eval_order(R, ctx, rid):
         R.require(rid, "floor:%s|short-circuit" % short, n >= 300, ctx.where(fn), "%d cases" % n)
 
 
+def reserve_each_call(R, ctx, rid="C17.reserve-each-call"):
+    """The replacement of a removed call may mention a global (`select` for remove_assertions): whether that name is shadowed is a
+    question about the scope of *this* call, so it is asked again on the way to every replacement."""
+    from .. import mir
+    lib = ctx.lib
+    R.rule(rid, "must-pass-through rule (MIR) in every function of the call-removal processor that asks its matcher for a replacement "
+                "(`CallMatch::compute_result`): each path from the entry to that call passes through the matcher's `reserve_globals` "
+                "query, and a closure of the same function asks the scope whether the name is used (`is_identifier_used`). A result "
+                "remembered from an earlier call site (a flag, a cache filled once) answers for a different scope: a later call under "
+                "`local select` would be rewritten to call the local")
+    n = 0
+    mine = {k: f for k, f in lib.fns.items() if "::test" not in k and f.get("mir") and f.get("file", "").endswith("rules/remove_call_match.rs")}
+
+    def queries(k):
+        """(calls reserve_globals, asks the scope) for a function and its closures"""
+        r = a = False
+        for kk in [k] + [ck for ck in lib.closures if ck.startswith(k + "::{closure")]:
+            c_ = mir.get_cfg(lib, kk)
+            for _, t in (c_.calls() if c_ is not None else ()):
+                cal = c_.callee(t) or ""
+                r, a = r or cal.endswith("::reserve_globals"), a or cal.endswith("is_identifier_used")
+        return r, a
+    helpers = {k for k in mine if all(queries(k))}        # a helper of the processor that does the whole lookup counts as the lookup
+    for k, f in mine.items():
+        cfg = mir.get_cfg(lib, k)
+        if cfg is None:
+            continue
+        cs = [(i, cfg.callee(t) or "") for i, t in cfg.calls()]
+        cs = [(i, "::reserve_globals" if (c in helpers and c != k) else c) for i, c in cs]
+        comp = [i for i, c in cs if c.endswith("::compute_result")]
+        if not comp:
+            continue
+        res = [i for i, c in cs if c.endswith("::reserve_globals")]
+        asks = False
+        for ck in lib.closures:
+            if ck.startswith(k + "::{closure"):
+                ccfg = mir.get_cfg(lib, ck)
+                if ccfg is not None and any((ccfg.callee(t) or "").endswith("is_identifier_used") for _, t in ccfg.calls()):
+                    asks = True
+        asks = asks or any(c.endswith("is_identifier_used") for _, c in cs) or any((cfg.callee(t) or "") in helpers for _, t in cfg.calls())
+        for t in comp:
+            n += 1
+            ok = bool(res) and cfg.must_pass(res, t) and asks
+            R.ob(rid, "%s|compute_result" % k.split("::")[-1], ok, ctx.where(f, cfg.line(t)),
+                 "the reserved globals are looked up in the scope of every replaced call" if ok else
+                 ("no scope query for the reserved globals in this function" if not (res and asks) else
+                  "a path reaches compute_result without asking for the reserved globals again: the answer of an earlier call site is reused"))
+    R.require(rid, "floor:sites", n >= 1, "", "%d replacement sites" % n)
+
+
 def run(R, ctx):
     R.explanation = (
         "Guard-before-act rules on typed THIR: the scope query precedes every rewrite in the scope-aware processors (sibling callbacks "
@@ -431,3 +481,4 @@ def run(R, ctx):
     args(R, ctx)
     keep(R, ctx)
     eval_order(R, ctx, "C17.order")
+    reserve_each_call(R, ctx)
